@@ -48,15 +48,31 @@ type c02loProj struct {
 	files    map[string]string
 	packages int
 	helpers  []string
+	refs     []string // load labels of the helpers
 }
 
 // c02loGen: a chain (or small DAG) of helper modules at the root, P packages loading several of them.
 func c02loGen(rng *rand.Rand, packages int) *c02loProj {
 	p := &c02loProj{files: map[string]string{".dawnconfig": ""}, packages: packages}
 	nh := 3 + rng.Intn(3)
+	// where each helper lives: the root package or the directory lib (its `package` is then //lib, whoever loads it)
+	where := make([]string, nh)
+	for i := range where {
+		if rng.Intn(2) == 0 {
+			where[i] = "lib"
+		}
+	}
+	ref := func(i int) string {
+		if where[i] == "" {
+			return fmt.Sprintf("//:h%d.dawn", i)
+		}
+		return fmt.Sprintf("//%s:h%d.dawn", where[i], i)
+	}
+	p.refs = nil
 	for i := 0; i < nh; i++ {
 		name := fmt.Sprintf("h%d", i)
 		p.helpers = append(p.helpers, name)
+		p.refs = append(p.refs, ref(i))
 		var b strings.Builder
 		var uses []string
 		if i > 0 {
@@ -66,13 +82,24 @@ func c02loGen(rng *rand.Rand, packages int) *c02loProj {
 				prev = append(prev, rng.Intn(i-1))
 			}
 			for _, j := range prev {
-				fmt.Fprintf(&b, "load(\"//:h%d.dawn\", \"f%d\", \"V%d\")\n", j, j, j)
+				fmt.Fprintf(&b, "load(%q, \"f%d\", \"V%d\")\n", ref(j), j, j)
 				uses = append(uses, fmt.Sprintf("f%d(x + %d), V%d", j, i, j))
 			}
 		}
+		// the predeclared values of the MODULE a function was defined in are part of what it references
+		switch rng.Intn(3) {
+		case 0:
+			uses = append(uses, "package")
+		case 1:
+			uses = append(uses, "package", "host.os")
+		}
 		fmt.Fprintf(&b, "V%d = {\"k%d\": [%d, %d, \"v%d\"], \"t\": (%d, %d.5)}\n\n", i, i, i, i+1, i, i, i)
 		fmt.Fprintf(&b, "def f%d(x):\n    return (x, V%d, %s)\n", i, i, strings.Join(append(uses, "None"), ", "))
-		p.files[name+".dawn"] = b.String()
+		file := name + ".dawn"
+		if where[i] != "" {
+			file = where[i] + "/" + file
+		}
+		p.files[file] = b.String()
 	}
 	var deps []string
 	for k := 0; k < packages; k++ {
@@ -87,7 +114,7 @@ func c02loGen(rng *rand.Rand, packages int) *c02loProj {
 		rng.Shuffle(len(order), func(a, c int) { order[a], order[c] = order[c], order[a] })
 		var refs []string
 		for _, i := range order {
-			fmt.Fprintf(&b, "load(\"//:h%d.dawn\", \"f%d\", \"V%d\")\n", i, i, i)
+			fmt.Fprintf(&b, "load(%q, \"f%d\", \"V%d\")\n", p.refs[i], i, i)
 			refs = append(refs, fmt.Sprintf("f%d(%d), V%d", i, k, i))
 		}
 		fmt.Fprintf(&b, "\n@target()\ndef t(self):\n    print(%s)\n", strings.Join(refs, ", "))
